@@ -386,10 +386,22 @@ def run(ctx):
                                                           "logrus output at trace level, audit records, all SQLite rows, signed tokens (raw + decoded segments), file names")
             ctx.oblige("exploration:canary-scan-ran", bool(can.get("scanner_positive_control")) and (can.get("keys", 0) > 0 or bool(ctx.replay)),
                        f"keys={can.get('keys')} control={can.get('scanner_positive_control')}")
+            def seq_ops(key):
+                """the op sequence that created the leaked key (key = seq<N>/<file>; N counts resets)"""
+                mk = re.match(r"seq(\d+)/", key)
+                if not mk:
+                    return ops
+                n, cur, sel = int(mk.group(1)), 0, []
+                for o in ops:
+                    if '"op":"reset"' in o:
+                        cur += 1
+                    if cur == n:
+                        sel.append(o)
+                return sel or ops
             for h in hits[:5]:
                 found_violation |= ctx.violation(f"C03:canary:{h['Sink']}:{h['Kind'].split(':')[0]}",
                                                  f"private key material ({h['Kind']}) of key {h['Key']} found in sink '{h['Sink']}': {h['Context'][:120]}",
-                                                 "canary-hit.jsonl", "\n".join(ops))
+                                                 "canary-hit.jsonl", "\n".join(seq_ops(h["Key"])))
             ctx.oblige("exploration:canary-no-hit", not hits, f"{len(hits)} hits")
         else:
             ctx.oblige("exploration:canary-scan-ran", False, "ks_canary.json missing")
